@@ -232,13 +232,15 @@ class ECDSAKey(PKey):
             return False
         sig = msg.get_binary()
         sigR, sigS = self._sigdecode(sig)
-        signature = encode_dss_signature(sigR, sigS)
 
         try:
+            # encode_dss_signature raises ValueError for integers that cannot
+            # be part of a signature (e.g. negative ones)
+            signature = encode_dss_signature(sigR, sigS)
             self.verifying_key.verify(
                 signature, data, ec.ECDSA(self.ecdsa_curve.hash_object())
             )
-        except InvalidSignature:
+        except (InvalidSignature, ValueError):
             return False
         else:
             return True
